@@ -8,4 +8,5 @@ void vrt_mpsc_q(const mpsc_fifo_t* f, char* out, size_t cap);
 void vrt_mpsc_tailf(const mpsc_fifo_t* f, char* out, size_t cap);
 extern int vrt_fiber_track_nodes;
 void vrt_tick(unsigned n);
+void vrt_tick64(uint64_t n); /* as vrt_tick, any count (virtual time jumps) */
 #endif
